@@ -115,6 +115,9 @@ func (w *HttpWorker) Process(data []byte, body []byte) (bool, error) {
 	if err := json.Unmarshal(data, &httpData); err != nil {
 		return false, err
 	}
+	if httpData == nil {
+		return false, fmt.Errorf("invalid http receiver data %s", data)
+	}
 
 	req, err := http.NewRequest("POST", httpData.Url, bytes.NewReader(body))
 	if err != nil {
